@@ -21,6 +21,17 @@ def gen_feed(rng, ndates, ntick, style=None, faults=None, spread_p=0.3, lo=5.0, 
     return f, fired
 
 
+def ensure_moving(fspec, rng):
+    """risk-based weighting is ill-posed on a constant price series (zero variance): give such a ticker a small walk"""
+    rows = fspec["prices"]
+    for j in range(len(fspec["tickers"])):
+        col = [r[j] for r in rows if r[j] is not None]
+        if len(col) >= 2 and max(col) == min(col):
+            for i, r in enumerate(rows):
+                if r[j] is not None:
+                    r[j] = round(r[j] * (1.0 + 0.01 * math.sin(1.0 + i * (1.3 + j)) + 0.002 * rng.random()), 6)
+
+
 def sched_spec(rng, dates, gated_only=True):
     """a calendar scheduler (stateless w.r.t. call count -> identical in paper copies and stand-alone runs)"""
     k = rng.choice(["RunDaily", "RunDaily", "RunWeekly", "RunMonthly", "RunQuarterly", "RunYearly", "RunOnDate", "RunAfterDate", "Or"])
@@ -98,7 +109,7 @@ def weigh_spec(rng, tickers, days, risk=True):
     return out, k
 
 
-def chaos_spec(rng, ndates, flows=True, capital=1e6):
+def chaos_spec(rng, ndates, flows=True, capital=1e6, deferred=True):
     acts = []
     for _ in range(ndates + 1):
         r = rng.random()
@@ -112,9 +123,9 @@ def chaos_spec(rng, ndates, flows=True, capital=1e6):
             acts.append(["observe"])
         elif r < 0.94:
             acts.append(["flow", round(rng.choice([1, 1, -1]) * rng.choice([0.05, 0.2, 0.5]) * capital, 2)])
-        elif r < 0.97:
+        elif r < 0.97 and deferred:
             acts.append(["flow_deferred", round(rng.choice([1, 1, -1]) * rng.choice([0.05, 0.2]) * capital, 2)])
-        elif r < 0.985:
+        elif r < 0.985 and deferred:
             acts.append(["nonflow_deferred", round(rng.choice([1, -1]) * rng.choice([0.001, 0.01]) * capital, 2)])
         else:
             acts.append(["nonflow", round(rng.choice([1, -1]) * rng.choice([0.001, 0.01]) * capital, 2)])
@@ -162,6 +173,8 @@ def gen_engine_plan(rng, family="mixed", tier="quick"):
         style = "bday"
         ndates = max(ndates, 18)
     fspec, fired = gen_feed(rng, ndates, ntick, style=style, faults=faults)
+    if risk:
+        ensure_moving(fspec, rng)
     tickers = fspec["tickers"]
     capital = rng.choice([1e5, 1e6, 1e6, 250000.0])
     nested = rng.random() < 0.35
@@ -543,6 +556,7 @@ def gen_all_algos_plan(rng, tier="quick", stateful=False, random_algos=True):
     ndates = rng.randint(16, 40 if big else 28)
     ntick = rng.randint(3, 5)
     fspec, fired = gen_feed(rng, ndates, ntick, style=rng.choice(["bday", "bday", "gaps", "intraday"]), faults={"late_listing": 0.15}, spread_p=0.4)
+    ensure_moving(fspec, rng)
     dates, tickers = fspec["dates"], fspec["tickers"]
     gap = max_gap_days(dates)
     extra = {}
@@ -814,7 +828,8 @@ def gen_rebalance_plan(rng, tier="quick"):
         cs = [rng.choice([None, 0.1, 0.25, 0.4]) for _ in range(3)]
         st.append({"a": "SetTemp", "set": {"cash": cs if rng.random() < 0.5 else rng.choice([0.1, 0.3, 0.5])}})
     if rng.random() < 0.25:
-        st.insert(0, chaos_spec(rng, ndates, flows=True, capital=capital))
+        # (no update=False flows here: Rebalance is judged from a delivered state - it reads target.value itself)
+        st.insert(0, chaos_spec(rng, ndates, flows=True, capital=capital, deferred=False))
     if rng.random() < 0.25:
         st.append({"a": "Wrap", "inner": {"a": "run_always", "algo": {"a": "RebalanceOverTime", "kw": {"n": rng.randint(2, 4)}}}})
         fired["rebalance_over_time"] = 1
